@@ -196,11 +196,15 @@ func firstDiff(path string, a, b interface{}) string {
 		return ""
 	default:
 		if fmt.Sprint(a) != fmt.Sprint(b) {
+			lastDiffValues = fmt.Sprintf("%v vs %v", a, b)
 			return path
 		}
 		return ""
 	}
 }
+
+// lastDiffValues: the two values at the path firstDiff returned last (for the report only).
+var lastDiffValues string
 
 // genericPath strips array indices so that signatures do not depend on positions.
 func genericPath(p string) string {
@@ -240,7 +244,7 @@ func compareExports(what string, a, b json.RawMessage) *e.Violation {
 		vb, sb := canon(mb[mod])
 		if sa != sb {
 			d := firstDiff(mod, va, vb)
-			return e.Violatef("export-import", "export-differs:"+what+":"+genericPath(d), "%s: section %s differs at %s", what, mod, d)
+			return e.Violatef("export-import", "export-differs:"+what+":"+genericPath(d), "%s: section %s differs at %s (%s)", what, mod, d, trunc(lastDiffValues, 200))
 		}
 	}
 	return nil
@@ -341,6 +345,13 @@ func haqqQuerySet(w *e.World, r *e.Replica) map[string]string {
 // exportImportCheck forks the node at the last committed boundary and runs
 // the three comparisons. cont: also continue both for two blocks.
 func exportImportCheck(w *e.World, cont bool) *e.Violation {
+	if _, pending := w.App().UpgradeKeeper.GetUpgradePlan(w.CommittedCtx()); pending {
+		// A scheduled software upgrade is state of the SDK's upgrade module, which has
+		// no genesis section by design: the original would run the handler in one of
+		// the next blocks and a chain started from the export would not.
+		w.Stats.Probe("skipped_pending_upgrade_plan")
+		return nil
+	}
 	w.Stats.Probe("export_import_compared")
 	w.Stats.Oracle++
 	A := w.Fork(0) // "export on a replica that was just restarted"
